@@ -77,15 +77,21 @@ def jobs(prop, tier, only_fn=None):
                 # plus one guard-section job with dmax symbolic over {0} u (dobj, 2^64)
                 slices = [("d%d" % k, ["-DFIX_DMAX=%d" % k], {"dmax": k}) for k in range(1, N + 1)]
                 slices.append(("guard", ["-DGUARD_ONLY"], {"dmax": "symbolic in {0} u (dobj,2^64), or NULL operands"}))
+                # across the 0x20 byte-loop/memset switch of the slack clearing (C08) and of handle_error
+                bigs = [34] if tier == "quick" else [32, 33, 34, 40]
+                if prop in ("C01", "C03", "C04", "C06", "C08"):
+                    for k in bigs:
+                        slices.append(("D%d" % k, ["-DFIX_DMAX=%d" % k, "-DNMAX=%d" % (k + 1)], {"dmax": k, "NMAX": k + 1}))
                 slices = [(t + ".o%d" % o, e + ["-DFIX_ORDER=%d" % o], dict(b, order=o)) for (t, e, b) in slices for o in (0, 1)]
                 for tag, extra, b in slices:
-                    defs = _base(name, f, T, kind, rmax, call, N) + extra
-                    bounds = {"layout": "G-fixed", "NMAX": N, "other": "symbolic"}
+                    NN = b.get("NMAX", N)
+                    defs = _base(name, f, T, kind, rmax, call, NN) + [e for e in extra if not e.startswith("-DNMAX=")]
+                    bounds = {"layout": "G-fixed", "NMAX": NN, "other": "symbolic"}
                     bounds.update(b)
                     out.append(Job("%s.%s.%s.F.%s" % (name, prop, variant, tag), prop, "h_copy.c", files, defines=defs,
                                    variant=variant,
                                    unwind_default=(b["dmax"] if isinstance(b["dmax"], int) else N) + 2,
-                                   unwind_rules=[(r"^mem(set|cpy)\.", (N if wide else N * W) + 2)],
+                                   unwind_rules=[(r"^mem(set|cpy)\.", (NN if wide else NN * W) + 2)],
                                    memchecks=False, fn=name, bounds=bounds,
                                    timeout=120 if tier == "quick" else 900))
     return out
